@@ -646,10 +646,10 @@ payload_chunked_h!(payload_chunked_lf8_f3_srest, 16, Little, F8, 3, usize::MAX);
 // @harness props=C18 tier=quick group=f64 bounds=dtype=<f8,16-byte-symbolic-payload,first-chunk=8,later-chunks=rest timeout=900
 payload_chunked_h!(payload_chunked_lf8_f8_srest, 16, Little, F8, 8, usize::MAX);
 
-// @harness props=C18 tier=quick group=f64 bounds=dtype=<f8,16-byte-symbolic-payload,first-chunk=9,later-chunks=rest timeout=900
+// @harness props=C15,C18 tier=quick group=f64 bounds=dtype=<f8,16-byte-symbolic-payload,first-chunk=9,later-chunks=rest timeout=900
 payload_chunked_h!(payload_chunked_lf8_f9_srest, 16, Little, F8, 9, usize::MAX);
 
-// @harness props=C18 tier=quick group=f64 bounds=dtype=<f8,16-byte-symbolic-payload,first-chunk=5,later-chunks=3 timeout=900
+// @harness props=C15,C18 tier=quick group=f64 bounds=dtype=<f8,16-byte-symbolic-payload,first-chunk=5,later-chunks=3 timeout=900
 payload_chunked_h!(payload_chunked_lf8_f5_s3, 16, Little, F8, 5, 3);
 
 // @harness props=C18 tier=quick group=f64 bounds=dtype=<f8,16-byte-symbolic-payload,first-chunk=1,later-chunks=1 timeout=900
@@ -664,7 +664,7 @@ payload_chunked_h!(payload_chunked_lf8_f15_srest, 16, Little, F8, 15, usize::MAX
 // @harness props=C18 tier=quick group=f64 bounds=dtype=>i2,6-byte-symbolic-payload,first-chunk=1,later-chunks=rest timeout=900
 payload_chunked_h!(payload_chunked_bi2_f1_srest, 6, Big, I2, 1, usize::MAX);
 
-// @harness props=C18 tier=quick group=f64 bounds=dtype=>i2,6-byte-symbolic-payload,first-chunk=3,later-chunks=2 timeout=900
+// @harness props=C15,C18 tier=quick group=f64 bounds=dtype=>i2,6-byte-symbolic-payload,first-chunk=3,later-chunks=2 timeout=900
 payload_chunked_h!(payload_chunked_bi2_f3_s2, 6, Big, I2, 3, 2);
 
 // @harness props=C18 tier=thorough group=f64 bounds=dtype=>i2,6-byte-symbolic-payload,first-chunk=1,later-chunks=1 timeout=900
